@@ -203,11 +203,13 @@ macro_rules! range_row {
                 if mode == 12 {
                     let eps = 2f64.powi(-((sbits - wbits) as i32 - prec as i32));
                     bound_bits += prec as f64 - (p as f64).log2() + (1.0 + eps).log2();
-                    let bits = (enc.num_words() * wbits) as f64;
+                    // the occupied size, either as reported or as counted on the temporary view of the live encoder
+                    let words_now = if kfrac % 2 == 1 && !adversarial { enc.get_compressed().len() } else { enc.num_words() };
+                    let bits = (words_now * wbits) as f64;
                     let bound = bound_bits + (sbits + 2 * wbits) as f64 + 1e-9 * n as f64 + 1e-6;
                     vcheck!(bits <= bound, "C12/range_bits_exceed_bound", "after {} symbols: {} bits > bound {:.3}", n, bits, bound);
                     let wmax = n + sbits / wbits + 2;
-                    vcheck!(enc.num_words() <= wmax, "C12/range_words_exceed_bound", "after {} symbols: {} words > n + S/W + 2 = {}", n, enc.num_words(), wmax);
+                    vcheck!(words_now <= wmax, "C12/range_words_exceed_bound", "after {} symbols: {} words > n + S/W + 2 = {}", n, words_now, wmax);
                     if bound - bits < wbits as f64 {
                         ctx.label("within_one_word_of_bound");
                     }
